@@ -13,6 +13,15 @@
 (* map as a plain KV store would hold it, gdirty the set of distinct keys written since the last  *)
 (* flush or drop.  The invariants tie the two formulations together.                             *)
 (* Batches, snapshots, `clear`/`goto`, depth bound and emission are as in KV.tla.                *)
+(*                                                                                               *)
+(* A batch is a buffer of its own: Write copies its operations into the overlay, Reset empties    *)
+(* the buffer, and whatever is queued on the SAME batch object afterwards changes nothing that    *)
+(* the store, its snapshots or the underlying store show until the next Write.  `bprev` records   *)
+(* that the store's one long-lived batch object has been through Write and Reset since the last   *)
+(* Flush / DropNotFlushed (what it wrote may still sit unflushed in the overlay).  It has no      *)
+(* influence on any other variable; it makes the reuse histories Put.. Write Reset Put.. distinct *)
+(* states of the graph (the harness realises such a state by writing the overlay through that     *)
+(* very batch object) and lets `ReusedBatchIsBuffered` name the clause.                           *)
 EXTENDS KVDefs
 
 CONSTANTS Keys, Vals, BKeys, BVals, MaxBatch, MaxSnaps, MaxDepth,
@@ -24,11 +33,12 @@ TOMB == "x"          \* overlay entry of a deleted key; not a value
 VARIABLES under,  \* [Keys -> Vals \cup BVals \cup {NONE}]
           over,   \* [written keys -> Vals \cup {TOMB}]
           batch, bw, snaps,
+          bprev,  \* the batch object has been written and reset since the last flush / drop
           gview, gdirty,   \* ghosts
           steps, act
 
-vars == <<under, over, batch, bw, snaps, gview, gdirty, steps, act>>
-View == <<under, over, batch, bw, snaps>>
+vars == <<under, over, batch, bw, snaps, bprev, gview, gdirty, steps, act>>
+View == <<under, over, batch, bw, snaps, bprev>>
 
 \* TLC re-evaluates a constant that the configuration overrides (`<-`) at every reference; these
 \* zero-arity aliases are evaluated once
@@ -42,8 +52,8 @@ RangeIdx == RangeIndex(SortedKeys, ITab)
 EmptyOver == [k \in {} |-> TOMB]
 NoSnap == [live |-> FALSE, view |-> EmptyView]
 EmptyState == [under |-> EmptyView, over |-> EmptyOver, batch |-> <<>>, bw |-> FALSE,
-               snaps |-> [i \in 1..MaxSnaps |-> NoSnap]]
-Cur == [under |-> under, over |-> over, batch |-> batch, bw |-> bw, snaps |-> snaps]
+               snaps |-> [i \in 1..MaxSnaps |-> NoSnap], bprev |-> FALSE]
+Cur == [under |-> under, over |-> over, batch |-> batch, bw |-> bw, snaps |-> snaps, bprev |-> bprev]
 
 \* the underlying map overlaid with the unflushed writes
 Overlay(u, o) == [k \in KeySet |-> IF k \in DOMAIN o THEN (IF o[k] = TOMB THEN NONE ELSE o[k]) ELSE u[k]]
@@ -56,90 +66,91 @@ RECURSIVE OverOps(_, _)
 OverOps(o, ops) == IF ops = <<>> THEN o ELSE OverOps(OverOp(o, Head(ops)), Tail(ops))
 
 OverJ(o) == LET ks == SelectSeq(SortedKeys, LAMBDA k : k \in DOMAIN o) IN [i \in DOMAIN ks |-> <<Str(ks[i]), o[ks[i]]>>]
-AbsOf(s) == [under |-> ViewJ(SortedKeys, s.under), over |-> OverJ(s.over), batch |-> OpsJ(s.batch), bw |-> s.bw,
+AbsOf(s) == [under |-> ViewJ(SortedKeys, s.under), over |-> OverJ(s.over), batch |-> OpsJ(s.batch), bw |-> s.bw, bprev |-> s.bprev,
              snaps |-> [i \in 1..MaxSnaps |-> [live |-> s.snaps[i].live, view |-> ViewJ(SortedKeys, s.snaps[i].view)]]]
 Abs == AbsOf(Cur)
 
 TypeOK ==
   /\ under \in [Keys -> Vals \cup BVals \cup {NONE}]
   /\ DOMAIN over \subseteq Keys /\ \A k \in DOMAIN over : over[k] \in Vals \cup BVals \cup {TOMB}
-  /\ Len(batch) <= MaxBatch /\ bw \in BOOLEAN
+  /\ Len(batch) <= MaxBatch /\ bw \in BOOLEAN /\ bprev \in BOOLEAN
   /\ \A i \in 1..MaxSnaps : snaps[i].live \in BOOLEAN /\ snaps[i].view \in [Keys -> Vals \cup BVals \cup {NONE}]
 
 Init ==
-  /\ \E s \in InitSet : /\ under = s.under /\ over = s.over /\ batch = s.batch /\ bw = s.bw /\ snaps = s.snaps
+  /\ \E s \in InitSet : /\ under = s.under /\ over = s.over /\ batch = s.batch /\ bw = s.bw /\ snaps = s.snaps /\ bprev = s.bprev
                       /\ gview = Overlay(s.under, s.over) /\ gdirty = DOMAIN s.over
   /\ steps = 0 /\ act = [op |-> "init"]
 
 Step == steps < MaxDepth /\ steps' = steps + 1
 
 Put(k, v) ==
-  /\ Step /\ over' = Write1(over, k, v) /\ UNCHANGED <<under, batch, bw, snaps>>
+  /\ Step /\ over' = Write1(over, k, v) /\ UNCHANGED <<under, batch, bw, snaps, bprev>>
   /\ gview' = [gview EXCEPT ![k] = v] /\ gdirty' = gdirty \cup {k}
   /\ act' = [op |-> "put", k |-> Str(k), v |-> v]
 
 Delete(k) ==
-  /\ Step /\ over' = Write1(over, k, TOMB) /\ UNCHANGED <<under, batch, bw, snaps>>
+  /\ Step /\ over' = Write1(over, k, TOMB) /\ UNCHANGED <<under, batch, bw, snaps, bprev>>
   /\ gview' = [gview EXCEPT ![k] = NONE] /\ gdirty' = gdirty \cup {k}
   /\ act' = [op |-> "del", k |-> Str(k)]
 
 BPut(k, v) ==
   /\ Step /\ ~bw /\ Len(batch) < MaxBatch
-  /\ batch' = Append(batch, OpPut(k, v)) /\ UNCHANGED <<under, over, bw, snaps, gview, gdirty>>
+  /\ batch' = Append(batch, OpPut(k, v)) /\ UNCHANGED <<under, over, bw, snaps, bprev, gview, gdirty>>
   /\ act' = [op |-> "bput", k |-> Str(k), v |-> v]
 
 BDelete(k) ==
   /\ Step /\ ~bw /\ Len(batch) < MaxBatch
-  /\ batch' = Append(batch, OpDel(k)) /\ UNCHANGED <<under, over, bw, snaps, gview, gdirty>>
+  /\ batch' = Append(batch, OpDel(k)) /\ UNCHANGED <<under, over, bw, snaps, bprev, gview, gdirty>>
   /\ act' = [op |-> "bdel", k |-> Str(k)]
 
 BWrite ==
   /\ Step /\ ~bw
-  /\ over' = OverOps(over, batch) /\ bw' = TRUE /\ UNCHANGED <<under, batch, snaps>>
+  /\ over' = OverOps(over, batch) /\ bw' = TRUE /\ UNCHANGED <<under, batch, snaps, bprev>>
   /\ gview' = ApplyOps(gview, batch) /\ gdirty' = gdirty \cup OpKeys(batch)
   /\ act' = [op |-> "bwrite"]
 
 BReset ==
   /\ Step /\ (bw \/ batch # <<>>)
   /\ batch' = <<>> /\ bw' = FALSE /\ UNCHANGED <<under, over, snaps, gview, gdirty>>
+  /\ bprev' = (bprev \/ (bw /\ batch # <<>>))
   /\ act' = [op |-> "breset"]
 
 BReplay(target) ==
   /\ Step /\ ~bw /\ batch # <<>>
-  /\ over' = OverOps(over, batch) /\ UNCHANGED <<under, batch, bw, snaps>>
+  /\ over' = OverOps(over, batch) /\ UNCHANGED <<under, batch, bw, snaps, bprev>>
   /\ gview' = ApplyOps(gview, batch) /\ gdirty' = gdirty \cup OpKeys(batch)
   /\ act' = [op |-> "breplay", target |-> target]
 
 Flush ==
   /\ Step /\ under' = Seen /\ over' = EmptyOver /\ UNCHANGED <<batch, bw, snaps, gview>>
-  /\ gdirty' = {}
+  /\ gdirty' = {} /\ bprev' = FALSE
   /\ act' = [op |-> "flush"]
 
 DropNotFlushed ==
   /\ Step /\ over' = EmptyOver /\ UNCHANGED <<under, batch, bw, snaps>>
-  /\ gview' = under /\ gdirty' = {}
+  /\ gview' = under /\ gdirty' = {} /\ bprev' = FALSE
   /\ act' = [op |-> "drop"]
 
 Snap(i) ==
   /\ Step /\ ~snaps[i].live
   /\ snaps' = [snaps EXCEPT ![i] = [live |-> TRUE, view |-> Seen]]
-  /\ UNCHANGED <<under, over, batch, bw, gview, gdirty>>
+  /\ UNCHANGED <<under, over, batch, bw, bprev, gview, gdirty>>
   /\ act' = [op |-> "snap", i |-> i]
 
 Release(i) ==
   /\ Step /\ snaps[i].live
-  /\ snaps' = [snaps EXCEPT ![i] = NoSnap] /\ UNCHANGED <<under, over, batch, bw, gview, gdirty>>
+  /\ snaps' = [snaps EXCEPT ![i] = NoSnap] /\ UNCHANGED <<under, over, batch, bw, bprev, gview, gdirty>>
   /\ act' = [op |-> "release", i |-> i]
 
 Clear ==
   /\ Cur # EmptyState
   /\ under' = EmptyView /\ over' = EmptyOver /\ batch' = <<>> /\ bw' = FALSE /\ snaps' = EmptyState.snaps
-  /\ gview' = EmptyView /\ gdirty' = {}
+  /\ gview' = EmptyView /\ gdirty' = {} /\ bprev' = FALSE
   /\ steps' = 0 /\ act' = [op |-> "clear"]
 
 Goto(s) ==
   /\ Cur = EmptyState /\ s # EmptyState
-  /\ under' = s.under /\ over' = s.over /\ batch' = s.batch /\ bw' = s.bw /\ snaps' = s.snaps
+  /\ under' = s.under /\ over' = s.over /\ batch' = s.batch /\ bw' = s.bw /\ snaps' = s.snaps /\ bprev' = s.bprev
   /\ gview' = Overlay(s.under, s.over) /\ gdirty' = DOMAIN s.over
   /\ steps' = 0 /\ act' = [op |-> "goto", state |-> AbsOf(s)]
 
@@ -176,7 +187,12 @@ OnlyFlushWritesUnder == [][act'.op \notin {"flush", "clear", "goto"} => under' =
 SnapshotsFrozen ==
   [][\A i \in 1..MaxSnaps : (snaps[i].live /\ snaps'[i].live) => snaps'[i].view = snaps[i].view]_vars
 SnapshotIsCopy == [][\A i \in 1..MaxSnaps : act'.op = "snap" /\ act'.i = i => snaps'[i].view = gview]_vars
-BatchIsBuffered == [][act'.op \in {"bput", "bdel", "breset"} => (over' = over /\ under' = under)]_vars
+BatchIsBuffered == [][act'.op \in {"bput", "bdel", "breset"} => (over' = over /\ under' = under /\ snaps' = snaps)]_vars
+\* ... also when the batch object has been written and reset before: what it wrote earlier stays as written
+\* (reads, iteration, snapshots and the underlying store are unchanged) until its next Write
+ReusedBatchIsBuffered ==
+  [][(bprev /\ act'.op \in {"bput", "bdel"}) =>
+       (Overlay(under', over') = Seen /\ snaps' = snaps /\ under' = under /\ NotFlushedPairs = Cardinality(DOMAIN over'))]_vars
 
 (* ---- emission (pattern R): see KV.tla ---- *)
 StoreObs(view) == ReaderObs(view, Probes, RangeIdx)
